@@ -139,7 +139,34 @@ func runC09(c *Ctx) error {
 		return u
 	}
 	for len(units) < n {
-		switch k := r.Intn(10); {
+		switch k := r.Intn(11); {
+		case k == 10: // (b') a well-formed file cut off at an arbitrary byte, preferably inside a token
+			g := richGrammar(r)
+			if r.Intn(2) == 0 {
+				g = hostileGrammar(r, false)
+			}
+			text := g.Render(&gram.RenderOpts{R: r, RandLayout: r.Intn(2) == 0, NoTrailingN: true})
+			cut := r.Intn(len(text) + 1)
+			if r.Intn(2) == 0 {
+				// cut right after an opening quote / comment / action marker
+				var spots []int
+				for i := 0; i < len(text); i++ {
+					if strings.ContainsRune("\"'`", rune(text[i])) || strings.HasPrefix(text[i:], "/*") || strings.HasPrefix(text[i:], "//") {
+						spots = append(spots, i+1+r.Intn(2))
+					}
+				}
+				if len(spots) > 0 {
+					cut = spots[r.Intn(len(spots))]
+					if cut > len(text) {
+						cut = len(text)
+					}
+				}
+			}
+			text = text[:cut]
+			if strings.Contains(text, "<<") {
+				continue
+			}
+			add("mutant", nil, text, []string{"-a"})
 		case k < 3: // (a)
 			withAct := r.Intn(2) == 0
 			g := hostileGrammar(r, withAct)
